@@ -15,7 +15,7 @@ VARIABLES l, st, skipping, fails, cs
 ActOf(e) == [a |-> e.ev, k |-> e.k]
 ObsOf(e) == [b |-> e.b, n |-> e.n, bytes |-> e.bytes, err |-> e.err, panic |-> e.panic, uc |-> e.uc, ur |-> e.ur]
 
-SInit(e) == AbsInit(e.sc.content, e.sc.term, e.declared, e.bodyNil)
+SInit(e) == AbsInit(e.sc, e.declared, e.bodyNil)
 
 SAllowed(p, e) ==
   IF e.ev = "nilbody" THEN p.bodyNil          \* a nil Body may stay nil; a stream must never be replaced by nil
